@@ -142,6 +142,19 @@ func (s *Snapshot) Final() (ok bool, why string) {
 	return true, ""
 }
 
+// FinalIO is Final for scenarios with sockets whose both ends live in this process: a goroutine
+// waiting for socket input ("IO wait") counts as blocked; the caller must establish separately
+// that no byte is in flight.
+func (s *Snapshot) FinalIO() (ok bool, why string) {
+	for _, g := range s.Gs {
+		if g.State == "IO wait" {
+			g.State = "select" // for the purposes of Final
+			defer func(g *G) { g.State = "IO wait" }(g)
+		}
+	}
+	return s.Final()
+}
+
 func (s *Snapshot) TimerBlocked() *G {
 	for _, g := range s.Gs {
 		for _, t := range TimerFrames {
